@@ -63,7 +63,7 @@ def run_shard(shard):
 
 
 def pack(st, n, idx):
-    res = {"states": st["states"] if idx == 0 else 0, "transitions": st["transitions"], "sends": st["sends"], "deliveries": st["deliveries"], "nondeliveries": st["nondeliveries"], "violations": [], "samples": [], "counters": {}}
+    res = {"capped": st.get("capped", 0), "states": st["states"] if idx == 0 else 0, "transitions": st["transitions"], "sends": st["sends"], "deliveries": st["deliveries"], "nondeliveries": st["nondeliveries"], "violations": [], "samples": [], "counters": {}}
     sig = {}
     for fails, path in st["violations"]:
         for clause, disc, what in fails:
@@ -85,7 +85,7 @@ def finish(tier, seed, m):
         "deliveries_observed": m["deliveries"],
         "non_deliveries_observed": m["nondeliveries"],
         "samples": m["samples"][:2],
-        "exhaustive": True,
+        "exhaustive": not m.get("capped", 0),
         "explanation": "complete reachable graph (fixpoint); every transition is executed on the real Router",
     }
     errs = []
